@@ -462,3 +462,79 @@ def reachable_table(pool, nchunk=14):
                         nxt.add(s2)
         frontier = sorted(nxt, key=repr)
     return init, table, side
+
+
+# ------------------------------------------------------------------------------------------------ stats token count
+
+class _CountContract(Contract):
+    """Hooks for the loop body of Lua.get_token_count: pattern tokens built inline (lexer.TokSymbol(b':')) are descriptors;
+    `t.matches(x)` is isinstance for a class and 'same class and equal data' for a pattern token (Token.__eq__)."""
+    target = 'pico8.lua.lua:Lua.get_token_count'
+    mode = 'lia'
+    no_merge = True
+    method_model_first = True
+
+    def call_hook(self, ex, node, f, args, kw, st):
+        if isinstance(f, ClassVal) and f.qual.startswith(LEXER + ':Tok') and len(args) == 1 and isinstance(args[0], bytes):
+            return ('pattern-token', f.qual, args[0])
+        if isinstance(f, BoundMethod) and f.qual.endswith(':Token.matches') and len(args) == 1:
+            tok = f.recv
+            rec = st.heap[tok.id]
+            a = args[0]
+            if isinstance(a, ClassVal):
+                return a.qual in source.class_info(tok.tag)['mro']
+            if isinstance(a, tuple) and a[:1] == ('pattern-token',):
+                if a[1] != tok.tag:
+                    return False                   # Token.__eq__: different types are never equal
+                return seq_eq(SSeq.of(rec['_data']), SSeq.of(a[2]))
+            return NotImplemented
+        if isinstance(f, BuiltinVal) and f.name == 'isinstance' and len(args) == 2 and isinstance(args[1], ClassVal) and isinstance(args[0], Ref):
+            return args[1].qual in source.class_info(args[0].tag)['mro']
+        return NotImplemented
+
+    def method_model(self, ex, recv, name, A, kw, st, node):
+        if name == 'find' and len(A) == 1:
+            r = V.fresh_int('find')                # position of a byte string in the token text, -1 if absent: some int >= -1
+            st.assume(r >= -1)
+            return r
+        return NotImplemented
+
+
+def token_weights():
+    """{class name: sorted list of possible increments of the counter for one token of that class with ARBITRARY data}
+    read off the real loop body of Lua.get_token_count."""
+    fn = source.find_function('pico8.lua.lua:Lua.get_token_count')
+    loops = [n for n in fn.node.body if isinstance(n, ast.For)]
+    if len(loops) != 1 or ast.unparse(loops[0].target) != 't':
+        raise SymErr('get_token_count is no longer one loop over the tokens')
+    out = {}
+    mi = source.module_info(LEXER)
+    for name, ci in sorted(mi['classes'].items()):
+        if LEXER + ':Token' not in ci['mro'] or name == 'Token':
+            continue
+        E.reset('lia')
+        c = _CountContract()
+        ex = Exec(fn, c, {}, [], prefix='count-body')
+        st = State()
+        data = V.byte_seq('data')
+        st.assume(data.n >= 1)
+        tok = st.alloc({'_data': data, 'code': data}, LEXER + ':' + name)
+        c0 = V.fresh_int('c')
+        st.locals.update({'self': st.alloc({}, 'pico8.lua.lua:Lua'), 't': tok, 'c': c0})
+        incs = set()
+        try:
+            outs = ex.block(loops[0].body, st)
+        except SymErr as e:
+            out[name] = 'unsupported: %s' % e
+            continue
+        for o in outs:
+            if not feasible(o.st.pc):
+                continue
+            c1 = o.st.locals['c']
+            d = None
+            for k in (0, 1, 2, 3):
+                if _entails(o.st, c1 == c0 + k):
+                    d = k
+            incs.add(d)
+        out[name] = sorted(incs, key=lambda x: (x is None, x))
+    return out
